@@ -167,8 +167,10 @@ func genLoopForcedOwn(g *Gen) {
 		step(3)
 		f.lines = append(f.lines, fmt.Sprintf("loop.app a %s", f.appOpsFor("a", true)), "prop.loop.check a")
 		step(2)
-		f.lines = append(f.lines, "loop.overdue a")
-		step(7)
+		for j := 0; j < 8; j++ {
+			// (arming only takes effect at the top of the loop or in its sleep)
+			f.lines = append(f.lines, "loop.overdue a", fmt.Sprintf("loop.go a ? 0 %d", f.now()), "prop.loop.check a")
+		}
 		f.lines = append(f.lines, "loop.loadfail a 0")
 		step(10)
 		g.Emit("forced-own-guard/"+map[bool]string{true: "native", false: "shadow"}[native], f.lines...)
